@@ -3356,6 +3356,8 @@ HPread_drec(int32 file_id, atom_t data_id, uint8 **drec_buf)
     uint16 drec_tag, drec_ref; /* description record tag/ref */
     int32  ret_value = 0;
 
+    *drec_buf = NULL;
+
     /* get the info for the dataset (description record) */
     if (HTPinquire(data_id, &drec_tag, &drec_ref, NULL, &drec_len) == FAIL)
         HGOTO_ERROR(DFE_INTERNAL, FAIL);
@@ -3374,9 +3376,17 @@ HPread_drec(int32 file_id, atom_t data_id, uint8 **drec_buf)
     if (Hendaccess(drec_aid) == FAIL)
         HGOTO_ERROR(DFE_CANTENDACCESS, FAIL);
 
+    drec_aid  = -1;
     ret_value = drec_len;
 
 done:
+    if (ret_value == FAIL) { /* Error condition cleanup */
+        if (drec_aid != -1)
+            Hendaccess(drec_aid);
+        free(*drec_buf);
+        *drec_buf = NULL;
+    }
+
     return ret_value;
 } /* HPread_drec */
 
